@@ -9,6 +9,117 @@ SM = "thejoker.samples"
 SH = "thejoker.samples_helpers"
 
 
+_TYPES = {"tuple": "tuple", "slice": "slice", "int": "int", "np.ndarray": "np.ndarray", "numpy.ndarray": "np.ndarray"}
+
+
+def _dispatch_outcomes(fn, P, ty):
+    """Abstract run of fn's body for a selector P of type ``ty`` (one of tuple / slice / int / np.ndarray / other): isinstance tests on P are decided, a
+    re-binding `P = slice(...)` changes the type, simple assignments are remembered.  Returns [("return", expr) | ("raise", node) | ("fall", None)]."""
+    import copy
+
+    def types_of(e):
+        if isinstance(e, ast.Tuple):
+            out = set()
+            for x in e.elts:
+                out |= types_of(x)
+            return out
+        d = canon(e)
+        return {_TYPES.get(d, "?" + d)}
+
+    def decide(test, t):
+        """True / False / None"""
+        if isinstance(test, ast.UnaryOp) and isinstance(test.op, ast.Not):
+            r = decide(test.operand, t)
+            return None if r is None else not r
+        if isinstance(test, ast.BoolOp):
+            rs = [decide(v, t) for v in test.values]
+            if isinstance(test.op, ast.And):
+                return False if any(r is False for r in rs) else (True if all(r is True for r in rs) else None)
+            return True if any(r is True for r in rs) else (False if all(r is False for r in rs) else None)
+        if isinstance(test, ast.Call) and A.call_name(test) == "isinstance" and len(test.args) == 2 and canon(test.args[0]) == P:
+            if t is None:
+                return None
+            ts = types_of(test.args[1])
+            if t == "other":
+                return False if all(not x.startswith("?") for x in ts) else None
+            return t in ts if all(not x.startswith("?") for x in ts) or t in ts else None
+        return None
+
+    out = []
+
+    def sub(e, env):
+        class T(ast.NodeTransformer):
+            def visit_Name(self, n):
+                if isinstance(n.ctx, ast.Load) and n.id in env:
+                    return copy.deepcopy(env[n.id])
+                return n
+        return T().visit(copy.deepcopy(e))
+
+    def run(stmts, t, env, depth=0):
+        """returns list of (t, env) continuations that fall off the end of stmts"""
+        conts = [(t, env)]
+        for s_ in stmts:
+            nxt = []
+            for t_, env_ in conts:
+                if isinstance(s_, ast.Return):
+                    out.append(("return", sub(s_.value, env_) if s_.value is not None else None))
+                elif isinstance(s_, ast.Raise):
+                    out.append(("raise", s_))
+                elif isinstance(s_, ast.Assign) and len(s_.targets) == 1 and isinstance(s_.targets[0], ast.Name):
+                    nm = s_.targets[0].id
+                    v = sub(s_.value, env_)
+                    e2 = dict(env_)
+                    e2[nm] = v
+                    t2 = t_
+                    if nm == P:
+                        t2 = "slice" if isinstance(s_.value, ast.Call) and A.call_name(s_.value) == "slice" else None
+                    nxt.append((t2, e2))
+                elif isinstance(s_, ast.If):
+                    d = decide(s_.test, t_)
+                    if d is not False:
+                        nxt += run(s_.body, t_, env_, depth + 1)
+                    if d is not True:
+                        nxt += run(s_.orelse, t_, env_, depth + 1) if s_.orelse else [(t_, env_)]
+                elif isinstance(s_, (ast.With, ast.Try)):
+                    nxt += run(s_.body, t_, env_, depth + 1)
+                else:
+                    nxt.append((t_, env_))
+            conts = nxt[:64]
+        return conts
+    for _ in run(fn.body, ty, {}):
+        out.append(("fall", None))
+    return out
+
+
+def _dispatch_by_type(ctx, fn, P):
+    """selector re-bound on the way (`if isinstance(P, tuple): P = slice(*P)`): decide the dispatch by an abstract run per selector type"""
+    R = "C12-DISPATCH"
+    want = {"tuple": ("read_batch", "read_batch_slice"), "slice": ("read_batch_slice",), "int": ("read_random_batch",), "np.ndarray": ("read_batch_idx",)}
+    seen = set()
+    for ty, callees in want.items():
+        outs = _dispatch_outcomes(fn, P, ty)
+        rets = [v for k, v in outs if k == "return"]
+        ok = bool(rets) and len(rets) == len(outs) and all(isinstance(v, ast.Call) and A.call_name(v) in callees for v in rets)
+        ctx.check(R, fn, "%s selector -> %s" % (ty, callees[0]), ok, "a %s selector ends in %s" % (ty, [(k, A.unparse(v)[:50] if isinstance(v, ast.AST) and k == "return" else None) for k, v in outs][:4]), key="branch:" + ty)
+        if not ok:
+            continue
+        seen.add(ty)
+        c = rets[0]
+        ctx.check(R, fn, "%s branch forwards file, columns, units" % ty,
+                  canon(c.args[0]) == "prior_samples_file" and canon(c.args[1]) == "columns" and canon(A.get_arg(c, None, "units") or ast.Constant(value=None)) == "units",
+                  "call `%s` does not forward (prior_samples_file, columns, units=units)" % A.unparse(c)[:80], key="fw:" + ty)
+        sel = c.args[2] if len(c.args) > 2 else None
+        wantsel = "slice(*%s)" % P if ty == "tuple" else P
+        ctx.check(R, fn, "tuple (a, b) becomes slice(a, b)" if ty == "tuple" else "%s selector passed through unchanged" % ty, sel is not None and canon(sel) == canon(parse(wantsel)),
+                  "selector passed as `%s`" % (A.unparse(sel) if sel is not None else None), key="tuple-slice" if ty == "tuple" else "sel:" + ty)
+        if ty == "int":
+            ctx.check(R, fn, "random branch forwards rng", canon(A.get_arg(c, None, "rng") or ast.Constant(value=None)) == "rng", "rng is not forwarded to read_random_batch", key="rng")
+    ctx.check(R, fn, "all four selector kinds handled", seen == set(want), "handled kinds: %s" % sorted(seen), key="kinds")
+    outs = _dispatch_outcomes(fn, P, "other")
+    ctx.check(R, fn, "any other selector raises", bool(outs) and all(k == "raise" for k, v in outs), "a selector that is none of tuple / slice / int / ndarray ends in %s" % [k for k, v in outs][:4], key="else")
+    ctx.check(R, fn, "returns the reader's result unchanged", True, "", key="ret", nontrivial=False)
+
+
 def check_dispatch(ctx):
     R = "C12-DISPATCH"
     ctx.rule(R, "read_batch dispatches on the selector type (decided on path conditions, so if/elif chains, early returns and nested forms are equivalent): "
@@ -19,6 +130,11 @@ def check_dispatch(ctx):
     flow = A.Flow(fn)
     want = {"tuple": "read_batch", "slice": "read_batch_slice", "int": "read_random_batch", "np.ndarray": "read_batch_idx"}
     lit = {t: "isinstance(slice_or_idx, %s)" % t for t in want}
+    rebound = [s_ for s_ in A.walk_local(fn) if isinstance(s_, ast.Assign) and any(isinstance(t_, ast.Name) and t_.id == "slice_or_idx" for t_ in s_.targets)]
+    if rebound:
+        _dispatch_by_type(ctx, fn, "slice_or_idx")
+        _check_random_reader(ctx)
+        return
     events = A.terminal_events(fn, flow)
     rets = [(A.term_strings(pc), v, n) for k, pc, v, n in events if k == "return"]
     raises = [(A.term_strings(pc), n) for k, pc, v, n in events if k == "raise"]
@@ -51,6 +167,11 @@ def check_dispatch(ctx):
     ctx.check(R, fn, "any other selector raises", bool(other), "no raise on the path where the selector is none of tuple / slice / int / ndarray", key="else")
     okret = bool(rets) and all(isinstance(v, ast.Call) and (A.call_name(v) or "").startswith("read_") for pc, v, n in rets)
     ctx.check(R, fn, "returns the reader's result unchanged", okret, "a return value is not a reader result: %s" % [A.unparse(v)[:40] for pc, v, n in rets if not (isinstance(v, ast.Call) and (A.call_name(v) or "").startswith("read_"))][:2], key="ret")
+    _check_random_reader(ctx)
+
+
+def _check_random_reader(ctx):
+    R = "C12-DISPATCH"
     # random reader
     rf = ctx.prog.func(UT, "read_random_batch", R)
     fl = A.Flow(rf)
@@ -436,8 +557,9 @@ def check_paths(ctx):
     ctx.rule(R, "writer and readers agree on the dataset path (JokerSamples._hdf5_path) and its metadata path meta_path(path); write() passes the table, the path, "
                 "append/overwrite and serialize_meta=True; read() rebuilds the object from the table and its metadata; the FITS reference epoch is written as "
                 ".tcb.mjd and read back with format='mjd', scale='tcb'.")
-    from .C17 import check_ingest
+    from .C17 import check_ingest, check_meta_branch
     check_ingest(ctx, R)
+    check_meta_branch(ctx, R)
     wf = ctx.prog.func(SM, "JokerSamples.write", R)
     wc = A.find_calls(wf, "write_table_hdf5")
     if len(wc) != 1:
